@@ -25,6 +25,7 @@ def key(d):
 
 
 def main():
+    os.environ["FV_EVIDENCE_DIR"] = "/tmp/fv_seed_evidence"  # keep /verif/evidence for runs on the unchanged tree
     only = skip = None
     for a in sys.argv[1:]:
         if a.startswith("--props="):
